@@ -5,6 +5,7 @@ CONSTANTS
   IsBlob = FALSE
   SetterMarksDirty = TRUE
   ExplicitSha1Recomputes = FALSE
+  DirtyUntilSerialized = TRUE
   ChunkedResetsSha = TRUE
 INVARIANT IdIsHash
 INVARIANT SerCurrent
